@@ -148,6 +148,28 @@ def _work_options(seed):
     return out
 
 
+def same_shape_update_cases(rng, n):
+    """indexed updates in which the target, the coordinates and the updates have the same shape (a one-dimensional target that is
+    used as it is): only the target may change"""
+    out = []
+    for _ in range(n):
+        a = rng.choice([3, 4, 5])
+        op = rng.choice(["set_at", "add_at", "subtract_at"])
+        form = rng.choice(["vec", "bracket1"])
+        t = gencalls.int_data(rng, (a,)).astype(rng.choice([np.int64, np.float64]))
+        idx = np.array([rng.randrange(a) for _ in range(a)], dtype=np.int64)
+        upd = gencalls.int_data(rng, (a,), 1, 9).astype(t.dtype)
+        if form == "vec":
+            desc, arrays = "[a], i, i -> [a]", [t, idx, upd]
+        else:
+            desc, arrays = "[a], i [1], i -> [a]", [t, idx.reshape(a, 1), upd]
+        c = gencalls.Call("update_at", op, [], [], arrays, desc=desc)
+        c.size_kwargs = lambda rng=None: {}
+        c.all_axes = lambda: {}
+        out.append(c)
+    return out
+
+
 def run(ctx):
     import einx  # noqa: F401
     n = 250 if ctx.tier == "quick" else 6000
@@ -176,6 +198,10 @@ def run(ctx):
             for layout in ("contiguous", "readonly"):
                 items.append((c2, layout, ctx.rng.randrange(1 << 30)))
             ctx.distinct.add(c2.op + "|" + c2.desc)
+    for c in same_shape_update_cases(ctx.rng, 12 if ctx.tier == "quick" else 300):
+        fam["update_at_same_shapes"] = fam.get("update_at_same_shapes", 0) + 1
+        for layout in ("contiguous", "readonly"):
+            items.append((c, layout, ctx.rng.randrange(1 << 30)))
     res = common.pmap(_work, items)
     for viol in res:
         for tags, payload in viol:
